@@ -1,5 +1,6 @@
 import JominiModel.Proofs.BinTapeTotal
 import JominiModel.Proofs.BinReader
+import JominiModel.Proofs.BinLexerTotal
 import JominiModel.Proofs.TextTapeTotal
 import JominiModel.Props.C12
 import JominiModel.Props.C17
